@@ -1,8 +1,6 @@
 use std::collections::hash_map::RandomState;
 #[cfg(not(prqlc_verif))]
-use std::collections::{BTreeSet, HashMap, HashSet};
-#[cfg(prqlc_verif)]
-use std::collections::BTreeSet;
+use std::collections::{HashMap, HashSet};
 #[cfg(prqlc_verif)]
 use prqlc_parser::verif_hash::{HashMap, HashSet};
 use std::iter::zip;
@@ -1130,11 +1128,17 @@ fn try_extract_sql_columns(
     }
     .into_iter()
     .flatten()
-    // deduplicate extracted columns, but preserve their order
-    .collect::<BTreeSet<String>>();
+    // the columns of the relation, in the order the SQL text projects them
+    .collect::<Vec<String>>();
 
     if has_wildcard {
         log::debug!("s-string contains a wildcard, skipping column extraction");
+        return columns;
+    }
+
+    if !sql_columns.iter().all_unique() {
+        // columns of the same name cannot be told apart by name: keep the wildcard
+        log::debug!("s-string projects a name twice, skipping column extraction");
         return columns;
     }
 
